@@ -1361,6 +1361,10 @@ func (in *Interp) chanRecv(ch *ChanV) (Value, bool) {
 }
 
 func (in *Interp) symRecv(ch *ChanV) Value {
+	if in.timerBudget <= 0 {
+		panic(pathEnd{"receive on a timer channel that will not fire again (budget exhausted)"})
+	}
+	in.timerBudget--
 	return in.zero(ch.T.Elem())
 }
 
@@ -1378,7 +1382,7 @@ func (in *Interp) selectOp(fr *frame, x *ssa.Select) Value {
 			continue
 		}
 		if st.Dir == types.RecvOnly {
-			if len(ch.Buf) > 0 || ch.Closed || ch.Sym {
+			if len(ch.Buf) > 0 || ch.Closed || (ch.Sym && in.timerBudget > 0) {
 				ready = append(ready, cand{i, ch})
 			}
 		} else {
@@ -1398,7 +1402,8 @@ func (in *Interp) selectOp(fr *frame, x *ssa.Select) Value {
 		n := len(ready)
 		k := 0
 		if n > 1 {
-			v := in.drawInput("select", "choice", 64)
+			v := in.fresh("select", 64)
+			in.inputs = append(in.inputs, Input{Tag: "select", Kind: "choice", Term: v, Internal: true})
 			in.res.NoNative = true
 			in.assume(c.Ult(v, c.BV(uint64(n), 64)))
 			k = in.Concretize(v, n-1, "select choice")
